@@ -2,6 +2,7 @@ package exec
 
 import (
 	"fmt"
+	"strings"
 	"go/token"
 	"go/types"
 
@@ -178,6 +179,11 @@ func (m *Machine) reportRace(t *Thread, pos, otherPos, otherKind string, write b
 	kind := "read"
 	if write {
 		kind = "write"
+	}
+	// recording stand-ins in harness files replace components that are thread-safe in production (Engine.IO socket,
+	// encoder); the executor runs them atomically between synchronisation points, so races inside them are not findings
+	if strings.HasPrefix(pos, "zz_verif_") && strings.HasPrefix(otherPos, "zz_verif_") {
+		return
 	}
 	a, b := pos, otherPos
 	if b < a {
